@@ -1720,7 +1720,10 @@ func (c *Client) close() {
 
 // SetLabelFlag is referred in zclient, this func sets label flag
 func (c Client) SetLabelFlag(msgFlags *MessageFlag, nexthop *Nexthop) {
-	if c.Version == 6 && c.Software.name == "frr" {
+	// The per-nexthop label flag exists from frr7.3 on (where MessageLabel was
+	// removed); frr6..7.2 have no nexthop flags octet at all (7.1/7.2: an onlink
+	// octet) and announce labels with MessageLabel like zapi5.
+	if c.Version == 6 && c.Software.name == "frr" && c.Software.version >= 7.3 {
 		nexthop.flags |= zapiNexthopFlagLabel
 	} else if c.Version > 4 {
 		*msgFlags |= MessageLabel
